@@ -16,8 +16,14 @@ CHECKS = {
  "C07": dict(level="fault_enumeration", family="crash", ref="6.5",
    technique="deterministic simulation: process death enumerated at every state-changing system call (before/after/torn) and signals at every I/O, same schedule replayed from a restored pre-state",
    text="Per scenario the kill points of one sync/fix execution are enumerated (quick: all points in the content save/rename and parity resize windows + a stride; thorough: all). After each interruption: data untouched, content copies complete, parity oracle, state loads, sync again + check + diff clean, previously synced files recoverable after losing a disk (additions-only), fix;kill;fix == fix."),
-}
 
+ "C04": dict(level="fault_enumeration", family="silent", ref="6.2",
+   technique="deterministic simulation: flipped-stored-byte faults enumerated over every data block and every parity block of seeded synced arrays, log-tag/bad-mark oracle",
+   text="Per seeded synced array the corruption targets (every file block incl. the last partial one, every parity block of every level of every used stripe) are enumerated and damaged (1 bit / 1 byte / whole block / zeroing, stamp restored, alone or combined); check -a, check, scrub full and scrub 100% must name exactly the damaged locations, fail, and scrub must mark exactly those stripes bad (decoded content and status -G); undamaged control runs must stay silent."),
+ "C08": dict(level="fault_enumeration", family="ioerr", ref="6.6",
+   technique="deterministic simulation: EIO/ENOSPC injected at every logical data/parity read and parity write of sync and scrub (addressed by file+offset), under io-cache depths 1..128 and seeded schedules",
+   text="The I/O targets of a scenario are read off a fault-free trace and each fails once (alone or in pairs) under several cache depths and schedules; judged by exit status, diagnostics, summary:error_io, the state of the hit stripe in the decoded content against the independent parity oracle, the other stripes, and the fix -e / sync / scrub -p bad repair path."),
+}
 NA = [
  ("C02", "pure function of (nd, np, size, buffers, variant): no schedule, clock, fault, crash point or history for a simulator to own"),
  ("C03", "pure function (erasure decoding / matrix minors): no schedule, clock, fault, crash point or history for a simulator to own"),
